@@ -407,16 +407,26 @@ impl Qcow2Header {
             Qcow2Info::__max_refcount_table_size(size, cluster_size, refcount_order, block_size);
         let rc_table_clusters = rc_table_size.div_ceil(cluster_size);
 
-        let rc_block_offset = rc_table_offset + ((rc_table_clusters as u64) << cluster_bits);
-        let rc_block_clusters = 1;
-
-        let l1_table_offset = rc_block_offset + cluster_size as u64;
         let l1_table_entries = Qcow2Info::get_max_l1_entries(size, cluster_bits);
         let l1_table_size = Qcow2Info::__max_l1_size(l1_table_entries, block_size);
         let l1_table_clusters = l1_table_size.div_ceil(cluster_size);
 
+        // The refcount blocks have to cover every metadata cluster,
+        // themselves included: with small clusters and wide refcounts one
+        // block isn't enough for a big image's tables
+        let rb_entries = cluster_size * 8 / (1 << refcount_order);
+        let rc_block_offset = rc_table_offset + ((rc_table_clusters as u64) << cluster_bits);
+        let mut rc_block_clusters = 1;
+        while 1 + rc_table_clusters + rc_block_clusters + l1_table_clusters
+            > rc_block_clusters * rb_entries
+        {
+            rc_block_clusters += 1;
+        }
+
+        let l1_table_offset = rc_block_offset + ((rc_block_clusters as u64) << cluster_bits);
+
         let rc_table = (rc_table_offset, rc_table_clusters as u32);
-        let rc_block = (rc_block_offset, rc_block_clusters);
+        let rc_block = (rc_block_offset, rc_block_clusters as u32);
         let l1_table = (l1_table_offset, l1_table_clusters as u32);
 
         (rc_table, rc_block, l1_table)
@@ -464,7 +474,11 @@ impl Qcow2Header {
         }
 
         //me
-        ref_b.increment((rc_table.1 as usize) + 1)?;
+        let start = rc_blk.0;
+        let end = start + ((rc_blk.1 as u64) << cluster_bits);
+        for i in (start..end).step_by(cluster_size) {
+            ref_b.increment((i >> cluster_bits) as usize)?;
+        }
 
         //l1 table
         let start = l1_table.0;
@@ -473,7 +487,11 @@ impl Qcow2Header {
             ref_b.increment((i >> cluster_bits) as usize)?;
         }
 
-        rc_t.set(0, RefTableEntry(rc_blk.0));
+        // the refcount blocks sit next to each other, so `ref_b` is indexed
+        // by the cluster number across all of them
+        for i in 0..rc_blk.1 as usize {
+            rc_t.set(i, RefTableEntry(rc_blk.0 + ((i as u64) << cluster_bits)));
+        }
 
         // commit meta into external buffer
         let buf_start = buf.as_mut_ptr() as u64;
